@@ -29,6 +29,9 @@ type Spec struct {
 	// SelfName: the root schema object is also added to itself as a named type (s.AddType(name, s)),
 	// the way JSight API registers the type that is being checked.
 	SelfName string `json:"self_name,omitempty"`
+	// SameFile: every schema object (root and types) is created with the same file name (the name
+	// given to AddType is independent of it)
+	SameFile bool `json:"same_file_name,omitempty"`
 }
 
 // Res is the canonical result of a call: Panic != "" when the call panicked.
@@ -116,7 +119,13 @@ func BuildSharing(sp Spec, shared map[string]jschema.Schema) (*js.Schema, Res, m
 	if sp.KeysOptional {
 		oo = append(oo, js.KeysAreOptionalByDefault())
 	}
-	s := js.New("root", sp.Schema, oo...)
+	fileName := func(n string) string {
+		if sp.SameFile {
+			return "schema"
+		}
+		return n
+	}
+	s := js.New(fileName("root"), sp.Schema, oo...)
 	first := Res{OK: true}
 	for _, e := range sp.Enums {
 		e := e
@@ -136,9 +145,9 @@ func BuildSharing(sp Spec, shared map[string]jschema.Schema) (*js.Schema, Res, m
 		obj, ok := shared[t.Name]
 		if !ok {
 			if t.Regex {
-				obj = regex.New(t.Name, t.Text)
+				obj = regex.New(fileName(t.Name), t.Text)
 			} else {
-				obj = js.New(t.Name, t.Text)
+				obj = js.New(fileName(t.Name), t.Text)
 			}
 		}
 		types[t.Name] = obj
